@@ -125,6 +125,10 @@ class CBloomFilter(bitcoin.core.serialize.Serializable):
         if isinstance(elem, bitcoin.core.COutPoint):
             elem = elem.serialize()
 
+        if len(self.vData) == 0:
+            # avoid a division by zero: an empty filter cannot be updated
+            return
+
         if len(self.vData) == 1 and self.vData[0] == 0xff:
             return
 
@@ -140,6 +144,11 @@ class CBloomFilter(bitcoin.core.serialize.Serializable):
         """
         if isinstance(elem, bitcoin.core.COutPoint):
             elem = elem.serialize()
+
+        if len(self.vData) == 0:
+            # avoid a division by zero: like Bitcoin Core (CVE-2013-5700), an
+            # empty filter matches everything
+            return True
 
         if len(self.vData) == 1 and self.vData[0] == 0xff:
             return True
